@@ -26,6 +26,12 @@ PROPS["C18"] = {
     "trusted_base": COMMON_TB + ["Iso8601/Ext.v: hand transcription of go1.23 time.Parse for layout RFC3339Nano, tied to the real time.Parse by the oracle-model correspondence"],
     "assumptions": ["TZ=UTC for the oracle's Local zone", "time.Parse behaves as transcribed in Iso8601/Ext.v outside the sampled inputs"],
     "env": {"TZ": "UTC"},
+    "claim": {
+        "text": "Theorems (Properties/C18.v), for every byte string: the Gallina translation of iso8601.Parse (regenerated from parse.go on every run) returns exactly what a transcription of "
+                "time.Parse(RFC3339Nano) returns (same instant, nanoseconds, zone offset; same accept/reject); daysSinceEpoch equals the civil calendar for all dates of years 0-9999; "
+                "validate is exact; Valid equals the declarative grammar for every string and every flag word and always terminates. The transcription of time.Parse is tied to the real one by correspondence.",
+        "note": "Trusted: Coq kernel, translator, extraction+driver, harness, the hand transcription of go1.23 time.Parse (Iso8601/Ext.v) validated against time.Parse on ~180k structured inputs per run; allocation-freedom of Valid is not modelled.",
+    },
 }
 
 PROPS["C20"] = {
@@ -40,4 +46,11 @@ PROPS["C20"] = {
     "trusted_base": COMMON_TB + ["the AVX2/SSE assembly of segmentio/asm is NOT modelled: the theorems are about the purego algorithms (translated) and the repo wrappers; the assembly build is tied only by the exhaustive single-deviation family",
                                  "gen/config.json extern table mapping the unsafe.Pointer loads of valid_default.go / valid_print_default.go to le64/le32/le16/at_ on the byte list"],
     "assumptions": ["inputs shorter than 2^63 bytes (Go's own limit)"],
+    "claim": {
+        "text": "Theorems (Properties/C20.v), for every byte string of every length < 2^63: the repo's Valid/ValidString, ValidPrint/ValidPrintString, "
+                "EqualFold*, HasPrefixFold*, HasSuffixFold* and the byte/rune predicates equal their byte-wise definitions. The repo wrappers and the purego "
+                "algorithms of segmentio/asm are machine-translated to Gallina on every run; the SWAR tricks (hasLess/hasMore, msb masks) are proved for all words by lane induction. "
+                "The amd64 assembly cannot be modelled with the tools present: it is tied by the exhaustive single-deviation family run on both builds.",
+        "note": "Trusted: Coq kernel, translator, extraction+driver, harness; the assembly build is covered by correspondence only (exhaustive over lengths 0..72 x positions x 12 values x 8 alignments).",
+    },
 }
